@@ -23,10 +23,13 @@ TRUSTED_COMMON = [
 ]
 
 # what bin/setup pre-builds (every check rebuilds on demand anyway; the object cache makes that cheap)
-SETUP_HARNESSES = [("san", "run_kernel"), ("san", "run_leaf"), ("san", "run_iter"), ("san", "run_lookup"), ("san", "run_registry"), ("san", "run_geo"), ("tsan", "run_conc")]
+SETUP_HARNESSES = [("san", "run_kernel"), ("san", "run_leaf"), ("san", "run_iter"), ("san", "run_lookup"), ("san", "run_registry"), ("san", "run_geo"), ("tsan", "run_conc"),
+                   ("san", "run_tet"), ("san", "run_hex"), ("san", "run_io"), ("san", "run_ascii"), ("plain", "run_io"), ("plain", "run_ascii")]
 SETUP_DRIVERS = [("Extract/Extract.v", "kdriver.ml", "kdriver"), ("Extract/ExtractLeaf.v", "ldriver.ml", "ldriver"),
                  ("Extract/ExtractIter.v", "iterdriver.ml", "iterdriver"), ("Extract/ExtractLookup.v", "lookupdriver.ml", "lookupdriver"),
-                 ("Extract/ExtractReg.v", "regdriver.ml", "regdriver"), ("Extract/ExtractGeo.v", "geodriver.ml", "geodriver")]
+                 ("Extract/ExtractReg.v", "regdriver.ml", "regdriver"), ("Extract/ExtractGeo.v", "geodriver.ml", "geodriver"),
+                 ("Extract/ExtractTetHex.v", "thdriver.ml", "thdriver"), ("Extract/ExtractOvmb.v", "ovmbdriver.ml", "ovmbdriver"),
+                 ("Extract/ExtractAscii.v", "asciidriver.ml", "asciidriver")]
 
 class Lock:
     def __init__(self, name="build"):
